@@ -564,9 +564,7 @@ class Engine:
             if cond and cond.startswith('iff:'):
                 g = self.spec_bool(cond[4:], st)
                 self.oblige_raw(st, 'must-raise', z3.Not(g), f'returns normally although {a} is required when: {cond[4:]}')
-        for u in c.uses:
-            # explicit use of a lemma proved separately (base + step; induction over the naturals is the meta-rule)
-            st.pc.append(self.spec_bool(u['fact'], st))
+        self.apply_uses(st)
         region = None
         if c.kf_region:
             es = st.copy()
@@ -582,6 +580,12 @@ class Engine:
             pass
         self.check_frame(st)
         self.covers.append((self.cur_line, 'return', list(st.pc)))
+
+    def apply_uses(self, st):
+        """Explicit use of lemmas proved separately (base + step; induction over the naturals is the meta-rule): the instance is a
+        valid fact about the current state wherever it is stated (function exit and loop entries)."""
+        for u in self.c.uses:
+            st.pc.append(self.spec_bool(u['fact'], st))
 
     def frame_fields(self, st):
         return ()
@@ -993,6 +997,7 @@ class Engine:
             raise Unsupported('while/else', s)
         k, spec = self.loop_spec(s, None)
         invs = spec.get('invariant', [])
+        self.apply_uses(st)
         for inv in invs:
             self.oblige_raw(st, 'loop-entry', self.spec_bool(inv, st), f'loop #{k} invariant holds on entry: {inv}')
         s2 = self.havoc_for_loop(s, st, spec)
@@ -1077,6 +1082,7 @@ class Engine:
         st.env[sname] = seq
         st.env[iname] = V(INT, z3.IntVal(0))
         invs = spec.get('invariant', [])
+        self.apply_uses(st)
         for inv in invs:
             self.oblige_raw(st, 'loop-entry', self.spec_bool(inv, st), f'loop #{k} invariant holds on entry: {inv}')
         s2 = self.havoc_for_loop(s, st, spec)
